@@ -694,6 +694,12 @@ impl C15 {
                 if r.ok {
                     out.push(v15("two_hop_same_pool", idx, format!("{} accepted the same pool for both legs", name)));
                 }
+                // the consistent version: one pool's genuine accounts in both legs, opposite directions
+                let acc = crate::mon::c17::same_pool_twice_accepted(v.ix, l, cov);
+                self.cell(format!("{} / both legs / one pool's genuine accounts twice", name), acc.is_none());
+                if let Some(d) = acc {
+                    out.push(v15("two_hop_same_pool", idx, d));
+                }
             }
         }
     }
